@@ -528,4 +528,193 @@ def item_c10_extract(repo, out):
         raise TranslateError('SensorCache.__getitem__: is not `return self.get(name, select=True)`')
 
 
-ITEMS = [item_c10_generator, item_c10_s2c, item_c10_catdata, item_c10_extract]
+# --------------------------------------------------------------------------------------------- sensor property tables
+
+TABLE_MODULES = (('v1', 'katdal/h5datav1.py'), ('v2', 'katdal/h5datav2.py'), ('v3', 'katdal/h5datav3.py'),
+                 ('v4', 'katdal/visdatav4.py'))
+PROP_KEYS = ('categorical', 'greedy_values', 'initial_value', 'transform', 'allow_repeats')
+
+
+def _token(node, what):
+    if isinstance(node, ast.Constant):
+        v = node.value
+        if isinstance(v, bool):
+            return ('bool', v)
+        if isinstance(v, str):
+            return ('str', v)
+        if isinstance(v, int):
+            return ('int', v)
+        if isinstance(v, float):
+            return ('float', Fraction(v))
+    if isinstance(node, ast.Name):
+        return ('other', node.id)
+    raise TranslateError('%s: unsupported value `%s`' % (what, _txt(node)[:80]))
+
+
+def _transform(node, module_dicts, what):
+    if isinstance(node, ast.Name):
+        return ('str',) if node.id == 'str' else ('func', node.id)
+    if isinstance(node, ast.Lambda) and len(node.args.args) == 1 and not node.args.defaults:
+        x = node.args.args[0].arg
+        b = node.body
+        if (isinstance(b, ast.Compare) and len(b.ops) == 1 and isinstance(b.left, ast.Name) and b.left.id == x):
+            c = b.comparators[0]
+            if isinstance(b.ops[0], ast.NotIn) and isinstance(c, (ast.Tuple, ast.List)):
+                return ('notin', tuple(_token(e, what) for e in c.elts))
+            if isinstance(b.ops[0], ast.Gt) and isinstance(c, ast.Constant) and isinstance(c.value, (int, float)) \
+                    and not isinstance(c.value, bool):
+                return ('gt', Fraction(c.value))
+        if (isinstance(b, ast.Call) and isinstance(b.func, ast.Attribute) and b.func.attr == 'get'
+                and isinstance(b.func.value, ast.Name) and b.func.value.id in module_dicts and len(b.args) == 2
+                and not b.keywords and isinstance(b.args[0], ast.Name) and b.args[0].id == x
+                and isinstance(b.args[1], ast.Constant) and isinstance(b.args[1].value, str)):
+            return ('mapget', b.func.value.id, tuple(module_dicts[b.func.value.id]), b.args[1].value)
+    raise TranslateError('%s: unsupported transform `%s`' % (what, _txt(node)[:100]))
+
+
+def _props(node, module_dicts, what):
+    if not isinstance(node, ast.Dict):
+        raise TranslateError('%s: sensor properties are not a dict literal' % what)
+    out = {}
+    for k, v in zip(node.keys, node.values):
+        if not (isinstance(k, ast.Constant) and k.value in PROP_KEYS) or k.value in out:
+            raise TranslateError('%s: unexpected property key `%s`' % (what, _txt(k) if k is not None else '**'))
+        key = k.value
+        if key in ('categorical', 'allow_repeats'):
+            if not (isinstance(v, ast.Constant) and isinstance(v.value, bool)):
+                raise TranslateError('%s: %s is not a bool literal' % (what, key))
+            out[key] = v.value
+        elif key == 'greedy_values':
+            if not isinstance(v, (ast.Tuple, ast.List)):
+                raise TranslateError('%s: greedy_values is not a tuple / list literal' % what)
+            out[key] = tuple(_token(e, what) for e in v.elts)
+        elif key == 'initial_value':
+            out[key] = _token(v, what)
+        else:
+            out[key] = _transform(v, module_dicts, what)
+    return out
+
+
+def _table(node, module_dicts, what):
+    if not isinstance(node, ast.Dict):
+        raise TranslateError('%s: not a dict literal' % what)
+    rows = []
+    for k, v in zip(node.keys, node.values):
+        if not (isinstance(k, ast.Constant) and isinstance(k.value, str)) or k.value in [r[0] for r in rows]:
+            raise TranslateError('%s: key `%s` is not a unique string literal' % (what, _txt(k) if k is not None else '**'))
+        rows.append((k.value, _props(v, module_dicts, '%s[%r]' % (what, k.value))))
+    return rows
+
+
+def _str_dicts(tree):
+    out = {}
+    for n in tree.body:
+        if (isinstance(n, ast.Assign) and len(n.targets) == 1 and isinstance(n.targets[0], ast.Name)
+                and isinstance(n.value, ast.Dict) and n.value.keys
+                and all(isinstance(k, ast.Constant) and isinstance(k.value, str) for k in n.value.keys)
+                and all(isinstance(v, ast.Constant) and isinstance(v.value, str) for v in n.value.values)):
+            out[n.targets[0].id] = [(k.value, v.value) for k, v in zip(n.value.keys, n.value.values)]
+    return out
+
+
+def parse_sensor_tables(repo):
+    """-> {'default' | 'v1'..'v4': [(key, {prop: parsed value})]} in dict order, the format tables already merged
+    (dict(DEFAULT_SENSOR_PROPS) then .update({...})).  Fail-closed on anything else that touches the tables."""
+    rel = 'katdal/dataset.py'
+    tree = _parse(repo, rel)
+    found = [n for n in tree.body if isinstance(n, ast.Assign) and any(isinstance(t, ast.Name) and t.id == 'DEFAULT_SENSOR_PROPS'
+                                                                      for t in n.targets)]
+    others = [n for n in tree.body if n not in found and any(isinstance(x, ast.Name) and x.id == 'DEFAULT_SENSOR_PROPS'
+                                                             for x in ast.walk(n))]
+    if len(found) != 1 or others:
+        raise TranslateError('%s: DEFAULT_SENSOR_PROPS must be assigned exactly once and not touched otherwise' % rel)
+    tables = {'default': _table(found[0].value, _str_dicts(tree), 'dataset.DEFAULT_SENSOR_PROPS')}
+    for tag, rel in TABLE_MODULES:
+        tree = _parse(repo, rel)
+        dicts = _str_dicts(tree)
+        rows = None
+        for n in tree.body:
+            if isinstance(n, (ast.FunctionDef, ast.ClassDef, ast.Import, ast.ImportFrom)):
+                continue
+            if not any(isinstance(x, ast.Name) and x.id == 'SENSOR_PROPS' for x in ast.walk(n)):
+                continue
+            t = _txt(n)
+            if t == 'SENSOR_PROPS = dict(DEFAULT_SENSOR_PROPS)' and rows is None:
+                rows = list(tables['default'])
+            elif (rows is not None and isinstance(n, ast.Expr) and isinstance(n.value, ast.Call)
+                  and _txt(n.value.func) == 'SENSOR_PROPS.update' and len(n.value.args) == 1 and not n.value.keywords):
+                for key, props in _table(n.value.args[0], dicts, '%s:SENSOR_PROPS' % rel):
+                    keys = [r[0] for r in rows]
+                    if key in keys:
+                        rows[keys.index(key)] = (key, props)
+                    else:
+                        rows.append((key, props))
+            else:
+                raise TranslateError('%s: unexpected statement touching SENSOR_PROPS: `%s`' % (rel, t[:100]))
+        if rows is None:
+            raise TranslateError('%s: SENSOR_PROPS = dict(DEFAULT_SENSOR_PROPS) not found' % rel)
+        # the table must be the one handed to the SensorCache of the format
+        calls = [c for c in ast.walk(tree) if isinstance(c, ast.Call) and _txt(c.func) == 'SensorCache']
+        if not calls or not all(any(_txt(a) == 'SENSOR_PROPS' for a in list(c.args) + [k.value for k in c.keywords])
+                                for c in calls):
+            raise TranslateError('%s: SensorCache(...) is not built with SENSOR_PROPS' % rel)
+        tables[tag] = rows
+    return tables
+
+
+def _coq_tok(t):
+    k, v = t
+    if k == 'str':
+        return '(TStr %s)' % coq_string(v)
+    if k == 'bool':
+        return '(TBool %s)' % ('true' if v else 'false')
+    if k == 'int':
+        return '(TInt (%d))' % v
+    if k == 'float':
+        if v.denominator > 10 ** 6 or abs(v.numerator) > 10 ** 9:
+            raise TranslateError('float constant %r not a small rational' % float(v))
+        return '(TFloat (%d) (%d))' % (v.numerator, v.denominator)
+    return '(TOther %s)' % coq_string(v)
+
+
+def _coq_transform(t):
+    if t is None:
+        return 'TrNone'
+    if t[0] == 'str':
+        return 'TrStr'
+    if t[0] == 'func':
+        return '(TrFunc %s)' % coq_string(t[1])
+    if t[0] == 'notin':
+        return '(TrNotIn [%s])' % '; '.join(_coq_tok(x) for x in t[1])
+    if t[0] == 'gt':
+        return '(TrGt (%d) (%d))' % (t[1].numerator, t[1].denominator)
+    if t[0] == 'mapget':
+        return '(TrMapGet [%s] %s)' % ('; '.join('(%s, %s)' % (coq_string(a), coq_string(b)) for a, b in t[2]), coq_string(t[3]))
+    raise TranslateError('internal: transform %r' % (t,))
+
+
+def _coq_optbool(b):
+    return 'None' if b is None else ('(Some %s)' % ('true' if b else 'false'))
+
+
+def item_c10_tables(repo, out):
+    tables = parse_sensor_tables(repo)
+    out.append('(* dataset.DEFAULT_SENSOR_PROPS and the merged SENSOR_PROPS of h5datav1 / h5datav2 / h5datav3 / visdatav4 *)')
+    out.append('Inductive c10_tok := TStr (s : string) | TBool (b : bool) | TInt (z : Z) | TFloat (num den : Z) | TOther (s : string).')
+    out.append('Inductive c10_transform := TrNone | TrNotIn (l : list c10_tok) | TrGt (num den : Z) '
+               '| TrMapGet (m : list (string * string)) (dflt : string) | TrStr | TrFunc (name : string).')
+    out.append('Record c10_props := mk_c10_props { cp_key : string; cp_categorical : option bool; cp_greedy : option (list c10_tok); '
+               'cp_initial : option c10_tok; cp_transform : c10_transform; cp_allow_repeats : option bool }.')
+    for tag in ('default', 'v1', 'v2', 'v3', 'v4'):
+        rows = []
+        for key, p in tables[tag]:
+            g = p.get('greedy_values')
+            rows.append('  mk_c10_props %s %s %s %s %s %s' % (
+                coq_string(key), _coq_optbool(p.get('categorical')),
+                'None' if g is None else '(Some [%s])' % '; '.join(_coq_tok(x) for x in g),
+                'None' if 'initial_value' not in p else '(Some %s)' % _coq_tok(p['initial_value']),
+                _coq_transform(p.get('transform')), _coq_optbool(p.get('allow_repeats'))))
+        out.append('Definition c10_table_%s : list c10_props := [\n%s].' % (tag, ';\n'.join(rows)))
+
+
+ITEMS = [item_c10_generator, item_c10_s2c, item_c10_catdata, item_c10_extract, item_c10_tables]
